@@ -418,6 +418,31 @@ theorem tflag_evalOutPre (s : St) (nv : DVar) (src : String) :
 
 /-! ### windows and picked sub-lists -/
 
+theorem mem_of_mapM_some {α β} (f : α → Option β) : ∀ (l : List α) (i : List β), l.mapM f = some i →
+    ∀ k ∈ i, ∃ v ∈ l, f v = some k := by
+  intro l
+  induction l with
+  | nil =>
+    intro i h k hk
+    simp at h
+    subst h
+    cases hk
+  | cons a as ih =>
+    intro i h k hk
+    rw [List.mapM_cons] at h
+    cases hfa : f a with
+    | none => simp [hfa] at h
+    | some b =>
+      cases hrest : as.mapM f with
+      | none => simp [hfa, hrest] at h
+      | some bs =>
+        simp [hfa, hrest] at h
+        subst h
+        rcases List.mem_cons.mp hk with rfl | hk'
+        · exact ⟨a, by simp, hfa⟩
+        · obtain ⟨v, hv, hfv⟩ := ih bs hrest k hk'
+          exact ⟨v, by simp [hv], hfv⟩
+
 theorem winIdx_lt (n : Nat) (w : Win) (i : List Nat) (h : winIdx n w = some i) : ∀ k ∈ i, k < n := by
   cases w with
   | int v =>
@@ -431,6 +456,18 @@ theorem winIdx_lt (n : Nat) (w : Win) (i : List Nat) (h : winIdx n w = some i) :
     simp only [winIdx, Option.some.injEq] at h
     subst h
     exact Props.C02.sliceIndices_lt n a b 1
+  | sl a b st =>
+    simp only [winIdx] at h
+    split at h
+    · cases h
+    · simp only [Option.some.injEq] at h
+      subst h
+      exact Props.C02.sliceIndices_lt n a b st
+  | lst l =>
+    simp only [winIdx] at h
+    intro k hk
+    obtain ⟨v, _, hv⟩ := mem_of_mapM_some (PySlice.normInt n) l i h k hk
+    exact PySlice.normInt_lt n v k hv
 
 theorem idxOf_some (n : Nat) (w : Option Win) (i : List Nat) (h : idxOf n w = some (some i)) :
     i ≠ [] ∧ ∀ k ∈ i, k < n := by
@@ -479,5 +516,6 @@ theorem applyFn_length (f : FnK) (l : List Rat) : (applyFn f l).length = fnLen f
   | max => cases l <;> simp [applyFn, List.range_succ_eq_map]
   | id => simp [applyFn]
   | first2 => simp [applyFn]
+  | rev => simp [applyFn]
 
 end Ioapi
